@@ -99,8 +99,7 @@ class C04(Prop):
 
     def extract(self, ctx):
         r = e5_metabolism.run(REPO, LEAN, write_if_changed)
-        w = e5_metabolism.extract_facts(REPO).get("debtWeight")
-        self.debt_weight = float(w) if not isinstance(w, e5_metabolism.Unrecognised) else 0.5
+        self.cls_facts = e5_metabolism.extract_facts(REPO)
         return [r, py2lean_metabolism.run(REPO, LEAN, write_if_changed)]
 
     def _ensure_fcheck(self):
@@ -129,29 +128,40 @@ class C04(Prop):
                 self.float_ok = False
                 return
 
+    def _cls_facts(self):
+        """(debt weight, chain, else-state) as evaluated from the tree under test; None if not recognised"""
+        f = getattr(self, "cls_facts", None)
+        if f is None:
+            f = self.cls_facts = e5_metabolism.extract_facts(REPO)
+        w, ch = f.get("debtWeight"), f.get("chain")
+        if isinstance(w, e5_metabolism.Unrecognised) or isinstance(ch, e5_metabolism.Unrecognised):
+            return None
+        return w, ch[0], ch[1]
+
     def _float_state(self, cur, cap, debt):
-        """the classification formula on Python floats with the constants of the tree under test (harness-side copy,
-        used only for the Float self-check of the driver)"""
-        A = self.m.ATP_Store
+        """the classification formula on Python floats with the constants evaluated from the tree under test
+        (harness-side copy, used only for the Float self-check of the driver)"""
+        facts = self._cls_facts()
+        if facts is None:
+            return "?"
+        w, chain, other = facts
         ratio = 0.0 if cap == 0 else cur / cap
         if debt > 0 and cap > 0:
-            ratio -= (debt / cap) * getattr(self, "debt_weight", 0.5)
-        if ratio <= A.STARVING_THRESHOLD:
-            return "starving"
-        if ratio <= A.CONSERVING_THRESHOLD:
-            return "conserving"
-        if ratio >= A.FEASTING_THRESHOLD:
-            return "feasting"
-        return "normal"
+            ratio -= (debt / cap) * (w.numerator / w.denominator)
+        for op, thr, st in chain:
+            t = thr.numerator / thr.denominator
+            if {"le": ratio <= t, "lt": ratio < t, "ge": ratio >= t, "gt": ratio > t}[op]:
+                return st
+        return other
 
     def _float_sensitive(self, s) -> bool:
         cap = s.max_atp + s.max_gtp
-        if cap <= 0:
+        facts = self._cls_facts()
+        if cap <= 0 or facts is None:
             return False
-        r = Fraction(s.atp + s.gtp, cap) - Fraction(max(s.get_debt(), 0), cap) * Fraction(repr(getattr(self, "debt_weight", 0.5)))
-        A = self.m.ATP_Store
-        ths = [Fraction(repr(x)) for x in (A.STARVING_THRESHOLD, A.CONSERVING_THRESHOLD, A.FEASTING_THRESHOLD)]
-        return any(abs(r - t) < Fraction(1, 10 ** 9) for t in ths)
+        w, chain, _ = facts
+        r = Fraction(s.atp + s.gtp, cap) - Fraction(max(s.get_debt(), 0), cap) * w
+        return any(abs(r - t) < Fraction(1, 10 ** 9) for _, t, _ in chain)
 
     # --- generation ---------------------------------------------------------------------------------------
     def _new_line(self, rng, big=False):
